@@ -534,9 +534,25 @@ def valuation(t, d: str) -> str:
     key = (side, repr(t))
     if key in _DISP["cache"]:
         return _DISP["cache"][key]
-    out = "(memv [" + "; ".join(vlib.coq_str(x) for x in true_tests(t, side)) + "])"
+    out = intern_valuation(true_tests(t, side))
     _DISP["cache"][key] = out
     return out
+
+
+_VALNAMES = {}
+
+
+def intern_valuation(tests: list) -> str:
+    """name of the Gallina definition of this valuation (each distinct valuation is written once per file: the case
+    files stay small - a coqc that needs less memory is not the first victim of a loaded machine)"""
+    lit = "memv [" + "; ".join(vlib.coq_str(x) for x in tests) + "]"
+    if lit not in _VALNAMES:
+        _VALNAMES[lit] = f"val_{len(_VALNAMES)}"
+    return _VALNAMES[lit]
+
+
+def valuation_defs() -> str:
+    return "".join(f"Definition {n} : string -> bool := {lit}.\n" for lit, n in _VALNAMES.items())
 
 
 def real_valuations(ns: dict, ncls: int) -> dict:
@@ -609,7 +625,7 @@ def coq_case(case, d, obs, vals=None) -> str:
 
     def rv(key, standin):
         if vals is not None and f"{key}:{side_}" in vals:
-            return "(memv [" + "; ".join(vlib.coq_str(x) for x in vals[f"{key}:{side_}"]) + "])"
+            return intern_valuation(vals[f"{key}:{side_}"])
         return valuation(standin, d)
     term = Term(case["type"])
     entry, slots = case["entry"], case["slots"]
